@@ -493,6 +493,13 @@ func workerBody(prop string, h Harness, opt Options) {
 	distinct := map[uint64]struct{}{}
 	nontriv := map[uint64]struct{}{}
 	seenKeys := map[string]int{}
+	// the seed of the run in progress is kept in a side file: when the Go runtime kills the process
+	// (e.g. "fatal error: concurrent map writes" inside the code under test) the driver knows which
+	// run to execute again
+	var curFile *os.File
+	if out != "" {
+		curFile, _ = os.Create(out + ".cur")
+	}
 	for i := 0; i < maxRuns; i++ {
 		if nowMs()-start > budget {
 			break
@@ -508,6 +515,9 @@ func workerBody(prop string, h Harness, opt Options) {
 		}
 		if verbose {
 			fmt.Fprintf(os.Stderr, "run %d seed %d t=%dms\n", i, seed, nowMs()-start)
+		}
+		if curFile != nil {
+			_, _ = curFile.WriteAt([]byte(fmt.Sprintf("%020d\n", seed)), 0)
 		}
 		r := Exec(h, prop, tier, seed, opt)
 		wo.Runs++
